@@ -26,6 +26,7 @@ type TokenBucketRateLimiter struct {
 type bucket struct {
 	tokens     int
 	lastRefill time.Time
+	removed    bool       // set by cleanup once the bucket has been dropped from the map
 	mutex      sync.Mutex // Only lock when modifying tokens
 }
 
@@ -50,6 +51,13 @@ func (rl *TokenBucketRateLimiter) Allow(clientIP string) bool {
 	vhook.Yield("rl.allow.lock")
 
 	b.mutex.Lock()
+	for b.removed {
+		// cleanup dropped this bucket after we looked it up: spending from it
+		// would be forgotten, so use the bucket that is in the map now
+		b.mutex.Unlock()
+		b = rl.getOrCreateBucket(clientIP)
+		b.mutex.Lock()
+	}
 	defer b.mutex.Unlock()
 
 	rl.refillTokens(b)
@@ -118,18 +126,20 @@ func (rl *TokenBucketRateLimiter) cleanup() {
 		ip := key.(string)
 		b := value.(*bucket)
 
+		vhook.Yield("rl.cleanup.delete")
 		b.mutex.Lock()
 		// Only forget a bucket that would be full again anyway: a new bucket
 		// starts full, so dropping a partly drained one would hand the client
 		// tokens it has not earned yet (matters for refill periods of minutes).
 		refilled := b.tokens + int(now.Sub(b.lastRefill)/rl.refillRate)
 		shouldDelete := b.lastRefill.Before(cutoff) && refilled >= rl.maxTokens
-		b.mutex.Unlock()
-
 		if shouldDelete {
-			vhook.Yield("rl.cleanup.delete")
+			// Drop it while holding its lock so that no request can spend from a
+			// bucket that is about to be forgotten
+			b.removed = true
 			rl.buckets.Delete(ip)
 		}
+		b.mutex.Unlock()
 		return true // continue iteration
 	})
 }
